@@ -20,6 +20,8 @@ r = subprocess.run(["git", "-C", TARGET, "apply", os.path.join(dst, "patch.diff"
 if r.returncode != 0:
     sys.exit("patch does not apply to " + TARGET)
 EXTRA = {"VERIF_REPO": TARGET, "PYTHONPATH": TARGET} if TARGET != "/repo" else {}
+if os.environ.get("EV_STOP_EARLY"):
+    EXTRA["VERIF_STOP_AT_FIRST_VIOLATION"] = "1"  # stop a check once 20 unattributed violations are in: the verdict is known
 results = {}
 try:
     for c in checks:
